@@ -106,6 +106,11 @@ class P(StreamProperty):
                                            cb=rng.choice(['none', 'buf', 'null']), trace=(cfg.n <= 60), finish=True))
         # histories that continue after of_finish_decoding (second finish, late symbols by either API, finish again)
         cases += gens.after_finish_cases(rng, 'af', 200 if tier == 'quick' else 4000)
+        # the application's buffers start at every alignment in turn (a receiver hands over payloads where they lie in its packets):
+        # the pointer the table reports must still be the very pointer that was submitted
+        for ci, c in enumerate(cases):
+            if ci % 2:
+                c.lines = [c.lines[0], 'align %d' % (1 + (ci // 2) % 7)] + c.lines[1:] + ['align 0']
         return cases
 
 _p = P()
